@@ -102,6 +102,54 @@ theorem version_damage_accepted (m : JMan) (hw : m.WF) (v' : Nat) (hv : v' ≤ u
     congr 1
     simp only [encode, member, List.append_assoc, Bool.false_eq_true, if_false, if_true, ↓reduceIte]
 
+/-- **damage to the NAME `checkpoint` silently drops the checkpoint** — for EVERY manifest: replace
+    the ten bytes of the name by any string the reader does not know as a field (one flipped bit is
+    enough: `checkpoint_name_flip_drops_checkpoint`) and `load` returns Ok with every other field
+    as written and `checkpoint: None` — the value, `null` or a whole `CheckpointInfo` object, is
+    skipped as that of an unknown field, and a missing `Option` field is `None`.  A recovery
+    from that manifest ignores the checkpoint and replays only the listed segments. -/
+theorem checkpoint_name_damage_drops_checkpoint (m : JMan) (hw : m.WF) (name' : List Nat)
+    (hv : validUtf8 (name'.length + 1) name' = true) (hunk : fieldIndex manFields name' = none) :
+    ∃ pre post, encode m = pre ++ encStr [99, 104, 101, 99, 107, 112, 111, 105, 110, 116] ++ post ∧
+      decode (pre ++ encStr name' ++ post) = some { m with checkpoint := none } := by
+  refine ⟨[123] ++ member 1 true [118, 101, 114, 115, 105, 111, 110] (encNat m.version) ++
+      member 1 false [114, 101, 112, 108, 105, 99, 97, 95, 105, 100] (encNat m.rid) ++
+      member 1 false [115, 101, 103, 109, 101, 110, 116, 115] (encSegs 1 m.segments) ++ ([44, 10] ++ indent 1),
+    [58, 32] ++ encChkOpt 1 m.checkpoint ++
+      member 1 false [110, 101, 120, 116, 95, 115, 101, 103, 109, 101, 110, 116, 95, 105, 100] (encNat m.next) ++ closeObj 0,
+    ?_, ?_⟩
+  · simp only [encode, member, List.append_assoc, Bool.false_eq_true, if_false, if_true, ↓reduceIte]
+  · have htxt : ([123] ++ member 1 true [118, 101, 114, 115, 105, 111, 110] (encNat m.version) ++
+          member 1 false [114, 101, 112, 108, 105, 99, 97, 95, 105, 100] (encNat m.rid) ++
+          member 1 false [115, 101, 103, 109, 101, 110, 116, 115] (encSegs 1 m.segments) ++ ([44, 10] ++ indent 1)) ++
+          encStr name' ++ ([58, 32] ++ encChkOpt 1 m.checkpoint ++
+          member 1 false [110, 101, 120, 116, 95, 115, 101, 103, 109, 101, 110, 116, 95, 105, 100] (encNat m.next) ++ closeObj 0) =
+        [123] ++ member 1 true [118, 101, 114, 115, 105, 111, 110] (encNat m.version) ++
+          member 1 false [114, 101, 112, 108, 105, 99, 97, 95, 105, 100] (encNat m.rid) ++
+          member 1 false [115, 101, 103, 109, 101, 110, 116, 115] (encSegs 1 m.segments) ++
+          member 1 false name' (encChkOpt 1 m.checkpoint) ++
+          member 1 false [110, 101, 120, 116, 95, 115, 101, 103, 109, 101, 110, 116, 95, 105, 100] (encNat m.next) ++
+          closeObj 0 ++ [] := by
+      simp only [member, List.append_assoc, Bool.false_eq_true, if_false, if_true, ↓reduceIte, List.append_nil]
+    rw [htxt]
+    unfold decode
+    have hlen : m.segments.length + 20 ≤ 2 * ([123] ++ member 1 true [118, 101, 114, 115, 105, 111, 110] (encNat m.version) ++
+          member 1 false [114, 101, 112, 108, 105, 99, 97, 95, 105, 100] (encNat m.rid) ++
+          member 1 false [115, 101, 103, 109, 101, 110, 116, 115] (encSegs 1 m.segments) ++
+          member 1 false name' (encChkOpt 1 m.checkpoint) ++
+          member 1 false [110, 101, 120, 116, 95, 115, 101, 103, 109, 101, 110, 116, 95, 105, 100] (encNat m.next) ++
+          closeObj 0 ++ []).length + 8 := by
+      have h := length_encSegs_ge 1 m.segments
+      simp only [List.length_append, member, closeObj, List.length_cons, List.length_nil]
+      omega
+    obtain ⟨vals, hp, hb⟩ := parseStruct_checkpoint_renamed m hw name' hv hunk [] _ hlen
+    rw [hp]
+    simp [hb, skipWs]
+
+/-- non-vacuity: `checkpoint` with bit 0 of its first letter flipped is such a name -/
+example : validUtf8 11 [98, 104, 101, 99, 107, 112, 111, 105, 110, 116] = true ∧
+    fieldIndex manFields [98, 104, 101, 99, 107, 112, 111, 105, 110, 116] = none := by decide
+
 /-! ## non-vacuity and concrete damage (kernel-evaluated on the model that is tied to serde_json) -/
 
 /-- the manifest of two flushes: keys `p/segments/segment-0000000N.seg` -/
